@@ -25,7 +25,8 @@ PID = "C19"
 LR = (64, 128, 192, 254)
 MIUS = (128, 129, 248, 1024, 2174, 2175)
 LTOS = (10, 100, 105, 500, 2550)
-SIZE = dict(dep=3 * 2 * 2 * 4 * 4 * 15, ml=6 * 6 * 5 * 5, opt=4 * 4 * 2 * 2 * 2 * 2, depx=2880 * 16, llcp=900 * 256)
+LTOSX = (0, 5, 9, 10, 19, 100, 500, 2550, 2559, 2560)      # the edges of the LTO TLV encoding, see P2pNeg.tla
+SIZE = dict(dep=3 * 2 * 2 * 4 * 4 * 15, ml=6 * 6 * 5 * 5, opt=4 * 4 * 2 * 2 * 2 * 2, depx=2880 * 16, llcp=900 * 256, lto=10 * 10)
 
 
 # ------------------------------------------------------------------ the grid (same arithmetic as P2pNeg.tla)
@@ -69,6 +70,10 @@ def grid_cfg(kind, k):
         return dep_part(mix((k // 2880) * 131 + k + 3), k % 2880)
     if kind == "llcp":
         return opt_part(ml_part(mix(k + 4), k % 900), k // 900)
+    if kind == "lto":
+        m = mix(k + 5)
+        m.update(ltoI=LTOSX[k % 10], ltoT=LTOSX[(k // 10) % 10])
+        return m
     raise ValueError(kind)
 
 
@@ -420,7 +425,7 @@ K_LTO = "LtoKept:%s:run-loop-idle-pause-exceeds-the-LTO-it-announced"
 def full_traffic(kind, k, seed, quick):
     """which configurations get the full traffic phase (run loops + applications): the whole (miu, lto) and
     (lsc, agf, snep) products, a quarter (thorough: all) of the NFC-DEP product, a sample of the big sub-grids"""
-    if kind in ("ml", "opt"):
+    if kind in ("ml", "opt", "lto"):
         return True
     if kind == "dep":
         return (k + seed) % 4 == 0 if quick else True
@@ -430,7 +435,7 @@ def full_traffic(kind, k, seed, quick):
 def run(tier, seed):
     ck = check.Check(PID, tier, seed, "model_checking")
     quick = tier == "quick"
-    kinds = ["dep", "ml", "opt"] + ([] if quick else ["depx", "llcp"])
+    kinds = ["dep", "ml", "opt", "lto"] + ([] if quick else ["depx", "llcp"])
     # 1. TLC enumerates the grid
     #    quick grid: activation, then connection announcements and obeying senders at the limits (Obey, LimitsSane);
     #    thorough: additionally the big grid (activation step only)
@@ -522,7 +527,8 @@ def run(tier, seed):
     ck.assume("grid = full product of the NFC-DEP options (brs, acm, discovery technology, lri, lrt, rwt), full product of"
               " (miu, lto) of both sides, full product of (lsc, agf, SNEP bound) of both sides, each with the remaining"
               " options cycling deterministically; thorough adds DEP x 16 LLCP samples and the full LLCP product",
-              "valid options only: miu 128..2175, lto 10..2550 (lto >= 2560 wraps in the LTO TLV, miu < 128 or > 2175 is not encodable)",
+              "miu 128..2175 (smaller or larger is not encodable); lto 0..2559 at the edges of the TLV encoding (0..9 announce 0 ms)"
+              " and 2560, which the code as it is encodes modulo 256 (announces 0 ms): modelled as such, not judged",
               "no DID/NAD (connect() cannot set them); llcp-sec off (OpenSSL unavailable)",
               "full traffic phase (real run loops; UI bursts of 3..5 datagrams at sendMIU-4m-2..+4, maximum-size I PDUs with"
               " pending acknowledgements both ways, SNL batches) on the whole (miu, lto) and (lsc, agf, snep) products and a"
